@@ -344,8 +344,9 @@ Proof.
       destruct (coerce (pty p) a) eqn:E2; try discriminate.
       destruct (eval_args ev pr r s1) as [c2 s2] eqn:E3. destruct c2; try discriminate.
       intros [= <- <-]. econstructor; eauto. apply IH; [lia|exact E3].
-    + intros H. inversion H; subst. rewrite H3, H6.
-      apply IH in H8; [|lia]. rewrite H8. reflexivity.
+    + intros H. inversion H; subst.
+      repeat match goal with Hx : ev e s = _ |- _ => rewrite Hx; clear Hx | Hx : coerce _ _ = _ |- _ => rewrite Hx; clear Hx end.
+      match goal with Hx : args_eval _ _ _ _ _ _ |- _ => apply IH in Hx; [rewrite Hx; reflexivity|lia] end.
 Qed.
 Lemma args_eval_length ev ps es s vs s' : args_eval ev ps es s vs s' -> List.length vs = List.length es.
 Proof. induction 1; cbn; congruence. Qed.
@@ -367,7 +368,7 @@ Lemma coerce_idem t v v' : coerce t v = Val v' -> coerce t v' = Val v'.
 Proof.
   unfold coerce. destruct (uns t && (v <? 0)) eqn:E.
   - intros [= <-]. apply andb_true_iff in E as [E _]. rewrite E. cbn.
-    unfold in_range, range. destruct (base t); rewrite E; reflexivity.
+    unfold in_range, range. rewrite E. destruct (base t); reflexivity.
   - destruct (in_range t v) eqn:E2; [|discriminate]. intros [= <-]. rewrite E, E2. reflexivity.
 Qed.
 
@@ -407,3 +408,202 @@ Proof.
       cbn. rewrite E. reflexivity.
 Qed.
 
+Lemma args_eval_coerced ev ps es s vs s' :
+  args_eval ev ps es s vs s' -> Forall2 (fun p v => coerce (pty p) v = Val v) (firstn (List.length vs) ps) vs.
+Proof.
+  induction 1; cbn; [constructor|]. constructor; [|assumption]. eapply coerce_idem; eassumption.
+Qed.
+
+(* ------------------------------------------------------------------ defaults fill the trailing parameters *)
+Lemma bind_params_default_eq ev p pr :
+  bind_params ev (p :: pr) [] =
+  match pdef p with
+  | Some d => v <- ev d ;; m_declare false false (pty p) (pname p) [] [v] ;;; bind_params ev pr []
+  | None => fail EArity
+  end.
+Proof. reflexivity. Qed.
+
+Lemma bind_params_app ev ps1 ps2 vs ws s :
+  List.length vs = List.length ps1 ->
+  bind_params ev (ps1 ++ ps2) (vs ++ ws) s = (bind_params ev ps1 vs ;;; bind_params ev ps2 ws) s.
+Proof.
+  revert vs s. induction ps1 as [|p pr IH]; intros vs s Hl.
+  - destruct vs; [|discriminate]. reflexivity.
+  - destruct vs as [|v vr]; [discriminate|]. cbn [app bind_params]. unfold bind.
+    destruct (m_declare false false (pty p) (pname p) [] [v] s) as [c s1]. destruct c; try reflexivity.
+    rewrite IH by (cbn in Hl; lia). reflexivity.
+Qed.
+
+Definition has_default (p : param) : bool := match pdef p with Some _ => true | None => false end.
+(* the declaration rule of the parser: once a parameter has a default, all later ones have one *)
+Fixpoint defaults_trailing (ps : list param) : bool :=
+  match ps with
+  | [] => true
+  | p :: r => if has_default p then forallb has_default r else defaults_trailing r
+  end.
+
+Lemma required_all_default ps : forallb has_default ps = true -> required ps = 0%nat.
+Proof.
+  unfold required. induction ps as [|p r IH]; [reflexivity|]. cbn. unfold has_default at 1.
+  destruct (pdef p); [|discriminate]. intros H. apply IH. exact H.
+Qed.
+Lemma required_le ps : (required ps <= List.length ps)%nat.
+Proof. unfold required. induction ps as [|p r IH]; cbn; [lia|]. destruct (pdef p); cbn; lia. Qed.
+
+(* with that rule, every parameter beyond the first [n >= required] ones has a default, so binding
+   never runs into a missing value *)
+Lemma defaults_present ps n :
+  defaults_trailing ps = true -> (required ps <= n)%nat -> forallb has_default (skipn n ps) = true.
+Proof.
+  revert n. induction ps as [|p r IH]; intros n Ht Hr; [destruct n; reflexivity|].
+  cbn in Ht. destruct (has_default p) eqn:E.
+  - destruct n; cbn; [rewrite E, Ht; reflexivity|].
+    clear -Ht. revert n. induction r as [|q r IHr]; intros n; [destruct n; reflexivity|].
+    cbn in Ht. apply andb_true_iff in Ht as [H1 H2]. destruct n; cbn; [rewrite H1, H2; reflexivity|apply IHr; exact H2].
+  - unfold required in Hr. cbn in Hr. unfold has_default in E. destruct (pdef p); [discriminate|]. cbn in Hr.
+    destruct n; [lia|]. cbn. apply IH; [exact Ht|]. unfold required. lia.
+Qed.
+
+Lemma bind_params_no_missing ev ps s c s' :
+  forallb has_default ps = true -> (forall d s0, fst (ev d s0) <> Fail EArity) ->
+  bind_params ev ps [] s = (c, s') -> c <> Fail EArity.
+Proof.
+  intros Hd Hev. revert s. induction ps as [|p r IH]; intros s; [cbn; intros [= <- <-]; discriminate|].
+  cbn in Hd. apply andb_true_iff in Hd as [H1 H2]. rewrite bind_params_default_eq.
+  unfold has_default in H1. destruct (pdef p) as [d|]; [|discriminate].
+  unfold bind. specialize (Hev d s). destruct (ev d s) as [c1 s1]. cbn in Hev.
+  destruct c1; try (intros [= <- <-]; congruence).
+  unfold m_declare. cbn [coerce_all]. destruct (coerce (pty p) a) eqn:Ec; try (intros [= <- <-]; discriminate).
+  - destruct (sframes s1) as [|f fr]; [apply IH; exact H2|]. destruct (fscopes f); [intros [= <- <-]; discriminate|apply IH; exact H2].
+  - intros [= <- <-]. unfold coerce in Ec. destruct (_ && _); [discriminate|]. destruct (in_range _ _); [discriminate|]. injection Ec as <-. discriminate.
+Qed.
+
+(* omitting trailing arguments means passing the declared defaults: for literal defaults that fit
+   their parameter type, the call with the arguments left out is the call with them written out *)
+Lemma eval_args_lits ev ps1 ps2 args zs s :
+  (forall z, ev (ENum z) = ret z) ->
+  List.length args = List.length ps1 ->
+  Forall2 (fun p z => coerce (pty p) z = Val z) ps2 zs ->
+  eval_args ev (ps1 ++ ps2) (args ++ map ENum zs) s =
+  match eval_args ev (ps1 ++ ps2) args s with
+  | (Val vs, s') => (Val (vs ++ zs), s')
+  | other => other
+  end.
+Proof.
+  intros Hn. revert ps1 s. induction args as [|e r IH]; intros ps1 s Hl HF.
+  - destruct ps1; [|discriminate]. cbn [app]. cbn [eval_args]. unfold ret.
+    revert s. induction HF as [|p z pr zr Hc HF IHF]; intros s; [reflexivity|].
+    cbn [map eval_args]. rewrite Hn. unfold bind, ret, lift. rewrite Hc. rewrite IHF. reflexivity.
+  - destruct ps1 as [|p pr]; [discriminate|]. cbn [app eval_args]. unfold bind.
+    destruct (ev e s) as [c s1]. destruct c; try reflexivity.
+    unfold lift. destruct (coerce (pty p) a); try reflexivity.
+    rewrite IH by (cbn in Hl; lia || assumption).
+    destruct (eval_args ev (pr ++ ps2) r s1) as [c2 s2]. destruct c2; reflexivity.
+Qed.
+
+Lemma eval_args_length ev ps es s vs s' : eval_args ev ps es s = (Val vs, s') -> List.length vs = List.length es.
+Proof.
+  revert ps s vs. induction es as [|e r IH]; intros ps s vs; cbn [eval_args].
+  - intros [= <- <-]. reflexivity.
+  - unfold bind, lift, ret. destruct (ev e s) as [c s1]. destruct c; try discriminate.
+    destruct ps as [|p pr].
+    + destruct (eval_args ev [] r s1) as [c2 s2] eqn:E. destruct c2; try discriminate. intros [= <- <-]. cbn. f_equal. eapply IH; exact E.
+    + destruct (coerce (pty p) a); try discriminate.
+      destruct (eval_args ev pr r s1) as [c2 s2] eqn:E. destruct c2; try discriminate. intros [= <- <-]. cbn. f_equal. eapply IH; exact E.
+Qed.
+
+Lemma bind_params_lits ev ps zs s :
+  (forall z, ev (ENum z) = ret z) ->
+  Forall2 (fun p z => pdef p = Some (ENum z)) ps zs ->
+  bind_params ev ps zs s = bind_params ev ps [] s.
+Proof.
+  intros Hn HF. revert s. induction HF as [|p z pr zr Hd HF IH]; intros s; [reflexivity|].
+  rewrite bind_params_default_eq, Hd, Hn. cbn [bind_params]. unfold bind, ret.
+  destruct (m_declare false false (pty p) (pname p) [] [z] s) as [c s1]. destruct c; try reflexivity. apply IH.
+Qed.
+
+Lemma Forall2_len {A B} (P : A -> B -> Prop) l1 l2 : Forall2 P l1 l2 -> List.length l1 = List.length l2.
+Proof. induction 1; cbn; congruence. Qed.
+
+Lemma Forall2_weaken {A B} (P Q : A -> B -> Prop) l1 l2 : (forall a b, P a b -> Q a b) -> Forall2 P l1 l2 -> Forall2 Q l1 l2.
+Proof. intros H. induction 1; constructor; auto. Qed.
+
+Lemma defaults_fill_trailing_l funcs k f fd ps1 ps2 args zs s :
+  find_func f funcs = Some fd -> fparams fd = ps1 ++ ps2 ->
+  List.length args = List.length ps1 -> (required (fparams fd) <= List.length args)%nat ->
+  Forall2 (fun p z => pdef p = Some (ENum z) /\ coerce (pty p) z = Val z) ps2 zs ->
+  eval funcs (S (S k)) (ECall f args) s = eval funcs (S (S k)) (ECall f (args ++ map ENum zs)) s.
+Proof.
+  intros Hf Hp Hl Hr HF.
+  assert (Hlz : List.length zs = List.length ps2) by (symmetry; eapply Forall2_len; exact HF).
+  assert (A1 : (required (fparams fd) <= List.length args <= List.length (fparams fd))%nat).
+  { split; [exact Hr|]. rewrite Hp, app_length. lia. }
+  assert (A2 : (required (fparams fd) <= List.length (args ++ map ENum zs) <= List.length (fparams fd))%nat).
+  { rewrite !app_length, map_length. split; [lia|]. rewrite Hp, app_length. lia. }
+  rewrite (call_unfold _ _ _ fd _ Hf A1), (call_unfold _ _ _ fd _ Hf A2).
+  assert (Hn : forall z, eval funcs (S k) (ENum z) = ret z) by reflexivity.
+  unfold bind at 1 4. rewrite Hp.
+  rewrite (eval_args_lits _ ps1 ps2 args zs s Hn Hl).
+  2: { eapply Forall2_weaken; [|exact HF]. cbn. tauto. }
+  destruct (eval_args (eval funcs (S k)) (ps1 ++ ps2) args s) as [c s1] eqn:E. destruct c; try reflexivity.
+  assert (Hla : List.length a = List.length ps1) by (rewrite <- Hl; eapply eval_args_length; exact E).
+  unfold bind, m_push_frame, finally, map_ctl. cbn beta iota.
+  match goal with |- context [bind_params ?ev (ps1 ++ ps2) a ?st] =>
+    replace (bind_params ev (ps1 ++ ps2) a st) with (bind_params ev (ps1 ++ ps2) (a ++ zs) st) end; [reflexivity|].
+  rewrite <- (app_nil_r a) at 2. rewrite !bind_params_app by assumption.
+  unfold bind. destruct (bind_params _ ps1 a _) as [c1 s2]. destruct c1; try reflexivity.
+  apply bind_params_lits; [exact Hn|]. eapply Forall2_weaken; [|exact HF]. cbn. tauto.
+Qed.
+
+(* ------------------------------------------------------------------ the returned value *)
+(* a value that fits the declared result type (every int64 value for `long`) reaches the caller as
+   the value of the call, unchanged *)
+Lemma call_result_unchanged rt v : (match rt with Some t => coerce t v = Val v | None => True end) ->
+  call_result rt (Ret (Some v)) = Val v.
+Proof. destruct rt; cbn; intros H; [exact H|reflexivity]. Qed.
+
+Lemma coerce_long v : in64 v = true -> coerce {| base := TLong; uns := false |} v = Val v.
+Proof. intros H. unfold coerce, in_range, range. cbn. unfold in64 in H. rewrite H. reflexivity. Qed.
+
+Lemma return_value_unchanged_l funcs k f fd args s vs s1 s2 v :
+  find_func f funcs = Some fd ->
+  (required (fparams fd) <= List.length args <= List.length (fparams fd))%nat ->
+  eval_args (eval funcs k) (fparams fd) args s = (Val vs, s1) ->
+  (bind_params (eval funcs k) (fparams fd) vs ;;; exec_list (exec funcs k) (fbody fd)) (fresh_frame f s1) = (Ret (Some v), s2) ->
+  (match fret fd with Some t => coerce t v = Val v | None => True end) ->
+  eval funcs (S k) (ECall f args) s = (Val v, pop_frame_st s2).
+Proof.
+  intros Hf Ha He Hb Hr. rewrite (call_unfold _ _ _ fd _ Hf Ha). unfold bind at 1. rewrite He.
+  unfold bind at 1. unfold m_push_frame at 1. unfold finally, map_ctl. unfold fresh_frame, m_push_frame in Hb. cbn [snd] in Hb.
+  rewrite Hb. rewrite call_result_unchanged by exact Hr. reflexivity.
+Qed.
+
+(* the whole call, positional: with as many arguments as parameters, distinct parameter names, the
+   body starts in a fresh frame whose only variables are the parameters, parameter i holding the
+   (converted) value of argument i *)
+Lemma call_binds_positionally ev ps es s vs s1 f :
+  List.length es = List.length ps -> NoDup (map pname ps) ->
+  eval_args ev ps es s = (Val vs, s1) ->
+  exists s2, bind_params ev ps vs (fresh_frame f s1) = (Val tt, s2) /\
+    sframes s2 = {| ffn := f; fscopes := [bound_scope ps vs []] |} :: sframes s1 /\
+    sglob s2 = sglob s1 /\ sstat s2 = sstat s1 /\ sout s2 = sout s1 /\
+    args_eval ev ps es s vs s1 /\
+    (forall x, scopes_get x [bound_scope ps vs []] =
+               match assoc x (combine (map pname ps) (combine (map pty ps) vs)) with
+               | Some (t, v) => Some (scalar_entry t v)
+               | None => None
+               end).
+Proof.
+  intros Hl Hn He.
+  assert (Ha : args_eval ev ps es s vs s1) by (apply eval_args_spec; [lia|exact He]).
+  assert (Hlv : List.length vs = List.length ps) by (rewrite <- Hl; eapply args_eval_length; exact Ha).
+  pose proof (args_eval_coerced _ _ _ _ _ _ Ha) as HF. rewrite Hlv, firstn_all in HF.
+  exists (with_top_scope s1 f (bound_scope ps vs []) (sframes s1)).
+  split; [|repeat split; try reflexivity; try assumption].
+  - unfold fresh_frame, m_push_frame. cbn [snd].
+    change {| sglob := sglob s1; sframes := {| ffn := f; fscopes := [[]] |} :: sframes s1; sstat := sstat s1; sout := sout s1 |}
+      with (with_top_scope s1 f [] (sframes s1)).
+    apply bind_params_supplied; assumption.
+  - intros x. cbn [scopes_get]. rewrite bound_scope_lookup by assumption.
+    destruct (assoc x (combine _ _)) as [[t v]|]; reflexivity.
+Qed.
